@@ -1,9 +1,15 @@
 (** Property C05 -- cursor movement and addressing.
     Only pinned statements, closed by [exact], with their assumptions printed. *)
-From Avt Require Import Oracles.Step Proofs.Inv Proofs.TermEasy.
+From Avt Require Import Oracles.Step Proofs.Inv Proofs.TermEasy Proofs.StepC05.
 
-(** For every cursor command except the tab searches: the model's control function returns exactly the state the specification [spec_cursor] describes - only cursor column, row and wrap-pending flag change (and margins / origin mode for DECSTBM / DECOM); in particular no cell changes. *)
-Theorem C05_cursor_refines : forall t f t', TScal t -> is_tab_fn f = false -> spec_cursor t f = Some t' -> execute t f = Ok t'.
-Proof. exact spec_cursor_refines. Qed.
-Check C05_cursor_refines : forall t f t', TScal t -> is_tab_fn f = false -> spec_cursor t f = Some t' -> execute t f = Ok t'.
-Print Assumptions C05_cursor_refines.
+(** For EVERY cursor command of the property (CUU, CUD, CUF, CUB, CNL, CPL, VPR, HPR, BS, CR, HT, CHT, CBT, CUP/HVP, CHA/HPA, VPA, DECSTBM, DECOM set/reset, and LF/IND/NEL/RI off the margins) and every state satisfying the invariant - wrap-pending column, rows above / inside / below the region, origin mode on or off, any tab stops - the model's control function returns exactly the state the specification [spec_cursor] describes: only cursor column, row and the wrap-pending flag change (margins for DECSTBM, origin mode for DECOM); no cell, mode or tab stop changes. *)
+Theorem C05_cursor : forall t f e, TInv t -> spec_cursor t f = Some e -> execute t f = Ok e.
+Proof. exact spec_cursor_refines_all. Qed.
+Check C05_cursor : forall t f e, TInv t -> spec_cursor t f = Some e -> execute t f = Ok e.
+Print Assumptions C05_cursor.
+
+(** the executable statement evaluated on the implementation is a theorem of the model *)
+Theorem C05_statement : forall p p' t f t', TInv t -> execute t f = Ok t' -> holds_C05 (mkVt p t) f (mkVt p' t') = true.
+Proof. exact C05_holds. Qed.
+Check C05_statement : forall p p' t f t', TInv t -> execute t f = Ok t' -> holds_C05 (mkVt p t) f (mkVt p' t') = true.
+Print Assumptions C05_statement.
